@@ -77,15 +77,11 @@ def run_task(task):
     findings = []
     base = {'strategy': 'order', 'order': order, 'seed': 0,
             'net': {'chunk': 'whole', 'latency': 'const'}, 'stalls': [], 'label': 'order:' + oname}
-    parserec.reset()
-    run = session.run_session(scn, base)
-    an, windows = s1.evaluate_run(run, props, None)
-    s1.add_run_stats(st, run, an, windows, base['label'])
-    info = s1.pilot_info(run)
-    for f in an.findings:
-        if f.prop in props:
-            findings.append(s1.finding_record(f, scn, base, run))
-    session.cleanup(run)
+    from harness import isolate
+    r = isolate.call(s1.exec_run, scn, base, props, base['label'])
+    s1.merge_stats(st, r['st'])
+    info = r['info']
+    findings.extend(r['findings'])
     points = 0
     if not findings:
         for role in info['roles']:
@@ -94,15 +90,10 @@ def run_task(task):
                 sched['stalls'] = [{'role': role, 'index': idx, 'duration': None,
                                     'after_kind': None, 'after_n': None, 'after_obj': None}]
                 s1.set_budgets(sched, info)
-                parserec.reset()
-                run = session.run_session(scn, sched)
-                an, windows = s1.evaluate_run(run, props, None)
-                s1.add_run_stats(st, run, an, windows, base['label'] + '+stall')
+                r = isolate.call(s1.exec_run, scn, sched, props, base['label'] + '+stall')
+                s1.merge_stats(st, r['st'])
                 points += 1
-                for f in an.findings:
-                    if f.prop in props:
-                        findings.append(s1.finding_record(f, scn, sched, run))
-                session.cleanup(run)
+                findings.extend(r['findings'])
                 if len(findings) > 30:
                     break
             if len(findings) > 30:
